@@ -598,7 +598,24 @@ func TestCheck(t *testing.T) {
 					dirs = []string{"/d", "/d/e", "/"}
 				}
 				dirs = append(dirs, "a", "e", "d", ".", "..", "d/e")
-				steps = []Step{{On: on, Set: "sub", Op: fsx.Op{P: rapid.SampledFrom(dirs).Draw(t, "sub-dir")}, Val: rapid.IntRange(0, 1).Draw(t, "sub-first")}}
+				sd := rapid.SampledFrom(dirs).Draw(t, "sub-dir")
+				// the same directory written uncleanly (trailing separator, final ".", a doubled
+				// separator, "./" in front of a relative one) is the same directory
+				switch rapid.IntRange(0, 7).Draw(t, "sub-spelling") {
+				case 0:
+					if sd != "/" {
+						sd += "/"
+					}
+				case 1:
+					sd = strings.TrimSuffix(sd, "/") + "/."
+				case 2:
+					if i := strings.LastIndex(sd, "/"); i >= 0 {
+						sd = sd[:i] + "/" + sd[i:]
+					} else {
+						sd = "./" + sd
+					}
+				}
+				steps = []Step{{On: on, Set: "sub", Op: fsx.Op{P: sd}, Val: rapid.IntRange(0, 1).Draw(t, "sub-first")}}
 			case 0:
 				steps = []Step{{On: on, Set: "umask", Val: rapid.SampledFrom([]int{0, 0o022, 0o077, 0o027}).Draw(t, "umask")}}
 			case 1:
